@@ -3,6 +3,7 @@ module verifharness
 go 1.22.0
 
 require (
+	github.com/google/gopacket v1.1.19
 	github.com/coredhcp/coredhcp v0.0.0
 	github.com/insomniacslk/dhcp v0.0.0-20241203100832-a481575ed0ef
 	github.com/sirupsen/logrus v1.9.3
@@ -15,7 +16,6 @@ require (
 	github.com/chappjc/logrus-prefix v0.0.0-20180227015900-3a1d64819adb // indirect
 	github.com/fsnotify/fsnotify v1.8.0 // indirect
 	github.com/go-viper/mapstructure/v2 v2.2.1 // indirect
-	github.com/google/gopacket v1.1.19 // indirect
 	github.com/mattn/go-colorable v0.1.13 // indirect
 	github.com/mattn/go-isatty v0.0.20 // indirect
 	github.com/mattn/go-sqlite3 v1.14.24 // indirect
